@@ -331,3 +331,62 @@ func VerifC09_RelTypedNew()        { vStepObserved(true, 9) }
 func VerifC09_PlainTypedAdd()      { vStepObserved(false, 10) }
 func VerifC09_PlainTypedExchange() { vStepObserved(false, 11) }
 func VerifC09_RelTypedRemove()     { vStepObserved(true, 12) }
+
+// NewBatchFn into a table that already holds rows: OnCreateEntity / OnAddRelations are emitted
+// once per NEW entity, after the batch callback ran for all of them (its writes are visible),
+// with the world locked; old rows are not reported.
+func VerifC09_BatchNew() {
+	W := vShapeFor(1)
+	t := W.e[0].h // parent p0 already has children in (R1->p0, A)
+	count := 1 + vPick("count", 3)
+	if W.n+count > vNE {
+		return
+	}
+	n0 := W.n
+	var vals [4]uint32
+	for i := range vals {
+		vals[i] = vU32("val")
+	}
+	created := 0
+	var evCreate, evRel [vNE]int
+	bad := 0
+	see := func(arr *[vNE]int) func(Entity) {
+		return func(e Entity) {
+			j := W.indexOf(e)
+			if j < n0 || !W.w.IsLocked() || created != count || !W.w.Alive(e) {
+				bad++
+				return
+			}
+			if *W.getPos(e) != W.e[j].pos || W.u.GetRelation(e, W.id[cR1]) != t || W.rowsHolding(e) != 1 {
+				bad++
+			}
+			arr[j]++
+		}
+	}
+	Observe(OnCreateEntity).Do(see(&evCreate)).Register(W.w)
+	Observe(OnAddRelations).Do(see(&evRel)).Register(W.w)
+	mp := NewMap2[vChild, vPos](W.w)
+	vcheck("no-panic", !vpanics(func() {
+		mp.NewBatchFn(count, func(e Entity, _ *vChild, p *vPos) {
+			if W.n < vNE {
+				W.e[W.n] = vEnt{h: e, alive: true, pos: vPos{vals[created%4], 3}}
+				W.e[W.n].has[cR1], W.e[W.n].has[cA] = true, true
+				W.e[W.n].tgt[0] = t
+				*p = W.e[W.n].pos
+				W.n++
+			}
+			created++
+		}, RelIdx(0, t))
+	}))
+	vcheck("callback-once-per-new-entity", created == count && W.n == n0+count)
+	vcheck("events-after-all-callbacks-locked-right-entities", bad == 0)
+	for j := 0; j < W.n; j++ {
+		exp := 0
+		if j >= n0 {
+			exp = 1
+		}
+		vcheck("event-once-per-new-entity", evCreate[j] == exp && evRel[j] == exp)
+	}
+	W.checkAll("after")
+	vreach("end")
+}
